@@ -4,6 +4,7 @@ import (
 	"sync"
 
 	"github.com/buildbuildio/pebbles/gqlerrors"
+	"github.com/buildbuildio/pebbles/verifhook"
 	"github.com/samber/lo"
 	"github.com/vektah/gqlparser/v2/ast"
 )
@@ -43,33 +44,48 @@ func AsyncMapReduce[T, P, A any](
 
 	for _, value := range payload {
 		go func(v T) {
+			verifhook.At("amr.worker.start", doneChan)
 			mapRes, err := mapFunc(v)
+			verifhook.At("amr.worker.mapped", doneChan)
 			if err != nil {
+				verifhook.At("amr.worker.send.err", doneChan)
 				errChan <- err
+				verifhook.At("amr.worker.sent", doneChan)
 				return
 			}
+			verifhook.At("amr.worker.send.res", doneChan)
 			resChan <- mapRes
+			verifhook.At("amr.worker.sent", doneChan)
 		}(value)
 	}
 
 	go func() {
 		for {
+			verifhook.At("amr.reducer.select", doneChan)
 			select {
 			case res := <-resChan:
+				verifhook.At("amr.reducer.recv.res", doneChan)
 				acc = reduceFunc(acc, res)
+				verifhook.At("amr.reducer.reduced", doneChan)
 				wg.Done()
 			case err := <-errChan:
+				verifhook.At("amr.reducer.recv.err", doneChan)
 				errs = gqlerrors.ExtendErrorList(errs, err)
+				verifhook.At("amr.reducer.reduced", doneChan)
 				wg.Done()
 			case <-doneChan:
+				verifhook.At("amr.reducer.done", doneChan)
 				return
 			}
 		}
 	}()
 
+	verifhook.At("amr.main.wait", doneChan)
 	wg.Wait()
+	verifhook.At("amr.main.waited", doneChan)
 
 	doneChan <- struct{}{}
+	verifhook.At("amr.main.done.sent", doneChan)
 
 	if len(errs) > 0 {
 		return acc, errs
